@@ -1065,13 +1065,18 @@ class MiscGenerator:
         if not es:
             return None
         p, e = r.choice(es)
-        what = r.choice(['*=', '/=', '+=', '-=', 'wrap', '*=expr'])
+        what = r.choice(['*=', '/=', '+=', '-=', 'wrap', '*=expr', '+=expr', '-=expr', '/=expr'])
         if what == 'wrap':
             return Op('arith:wrap', f'{p}.wrap_with_parenthesis()', root, '$', lambda: [e], e.wrap_with_parenthesis, inplace_ids=[id(e)])
-        if what == '*=expr':
+        if what.endswith('expr'):
+            # a free right operand with a top-level + or -: the library has to put it in parentheses of its own making
             other = models.NumberExpr.from_value(D(r.randint(2, 9)))
-            other += r.randint(1, 3)
-            return Op('arith:*=expr', f'{p} *= <free expression {common.pr(other)!r}>', root, '$', lambda: [e], lambda: operator.imul(e, other),
+            if r.random() < 0.5:
+                other += r.randint(1, 3)
+            else:
+                other -= D(r.randint(1, 3))
+            efn = {'*': operator.imul, '/': operator.itruediv, '+': operator.iadd, '-': operator.isub}[what[0]]
+            return Op('arith:' + what, f'{p} {what[:2]} <free expression {common.pr(other)!r}>', root, '$', lambda: [e], lambda: efn(e, other),
                       inplace_ids=[id(e)])
         c = r.choice([2, 3, D('0.5'), D('-1')])
         fn = {'*=': operator.imul, '/=': operator.itruediv, '+=': operator.iadd, '-=': operator.isub}[what]
